@@ -27,7 +27,7 @@ def run(tier, rep):
     corp = emit.specs('quick')
     chosen = sorted(TAILS) if thorough else [0, 1, 7, 8, 9, 17]
     pads = [0, 1, 4090, 4093, 4094, 4095, 4096, 4097, 8190, 8191, 8192] if thorough else [0, 4094, 4095, 4096]
-    n = 3 if thorough else 2
+    n = 2  # three arbitrary bytes x 11 paddings took more than half an hour per package
     with Scratch() as sc:
         res = emit.emit_all(corp, sc)
         done = 0
